@@ -321,6 +321,15 @@ def step (x : Sess) (toks : List String) : Step :=
     match n.toNat? with
     | some n =>
       if c.sync then simple x "r=na"
+      else if x.opts.file && x.mapping == .shared && !c.ro then
+        -- `Memory::truncate` of a shared file mapping: the file is only ever extended (with zeros), never cut, and the
+        -- first `size` bytes of it are mapped again. (`Core.truncate` with `fileBacked` is the part of this the property
+        -- speaks about: capacity, and the bytes below `allocated()`.)
+        let size := if x.st.allocated ≥ n then x.st.allocated else n
+        let f : Mem := (x.file).getD #[]
+        let f' : Mem := if f.size < size then f ++ Array.replicate (size - f.size) 0 else f
+        let st := { x.st with mem := f'.extract 0 size }
+        simple { x with st := st, fs := some f' } "r=ok"
       else match truncate c x.st n with
         | .error _ => simple x "r=io:PermissionDenied"
         | .ok st => simple { x with st := st } "r=ok"
